@@ -127,10 +127,7 @@ def clause_d(ctx, P):
 def clause_e(ctx, P):
     fn = P.one("Zeroconf::exec_command_unregister")
     tr = tracer(P, fn)
-    idx = None
-    for l in range(1, fn.argc + 1):
-        if fn.locals[l].get("name") == "repeating":
-            idx = l
+    idx = rerun_flag_param(P, fn)
     e_first = guard_edges(P, fn, lambda atom, outcome, bb: atom == ("param", idx) and outcome is False)
     reruns = list(aggregates(fn, "service_daemon::ReRun"))
     ctx.floor("C09e.resend-sites", len(reruns), 2, "ReRun constructions in exec_command_unregister (v4, v6)")
